@@ -123,7 +123,8 @@ def history(kind, k):
     elif k <= 2:
         ops = base + [f"blob-c1-{n}-{p}" for n in ("A", "B") for p in ("Never", "Also", "Only")]
     else:
-        ops = OPS
+        # 3 steps: one bystander policy per device name (22^3 x 6 paths did not finish in an hour)
+        ops = base + [f"blob-c1-{n}-{p}" for n in ("A", "B") for p in ("Also", "Only")]
 
     def body(d: Draw):
         from indi.routing.router import Router
